@@ -398,7 +398,7 @@ pub fn remove_strategy(max_len: usize) -> impl Strategy<Value = RemoveCase> {
 
 pub fn run_c04(ctx: &Ctx) {
     let t = ctx.tier();
-    enum_remove(ctx, t.pick(12, 16));
+    enum_remove(ctx, t.pick(13, 16));
     ctx.run_proptest("remove", t.pick(40_000, 1_000_000), remove_strategy(t.pick(60, 200)), &check_remove);
     ctx.run_proptest("lanes", t.pick(20_000, 500_000), crate::props::skip::lanes_strategy(), &crate::props::skip::check_lanes);
 }
